@@ -195,6 +195,7 @@ func stormGroup(js []*job, heavy bool) [][]stormAns {
 		g = 2
 	}
 	local := make([][][]stormAns, g)
+	calls := make([]int, g)
 	var wg sync.WaitGroup
 	start := make(chan struct{})
 	for w := 0; w < g; w++ {
@@ -213,6 +214,7 @@ func stormGroup(js []*job, heavy bool) [][]stormAns {
 						continue
 					}
 					r, p := answer(js[i].toks)
+					calls[w]++
 					if l := len(mine[i]); l > 0 && mine[i][l-1].resp == r && len(p) == 0 && len(mine[i][l-1].props) == 0 {
 						continue // the same answer as last time
 					}
@@ -235,7 +237,9 @@ func stormGroup(js []*job, heavy bool) [][]stormAns {
 		for i := range js {
 			res[i] = append(res[i], local[w][i]...)
 		}
+		stormCalls += calls[w]
 	}
+	stormGroups++
 	return res
 }
 
@@ -297,6 +301,7 @@ func storm(win []*job, heavy bool, order string) {
 			for i, r := range stormGroup(js, true) {
 				pending[js[i]] = r
 			}
+			stormFirst += len(js)
 			continue
 		}
 		if len(js) == 1 {
@@ -310,6 +315,9 @@ func storm(win []*job, heavy bool, order string) {
 }
 
 var pending = map[*job][]stormAns{}
+
+// what the concurrent part of this process amounted to (reported on stderr at the end)
+var stormGroups, stormCalls, stormFirst int
 
 const windowSize = 64
 
@@ -383,4 +391,5 @@ func main() {
 		}
 		out.Flush()
 	}
+	fmt.Fprintf(os.Stderr, "STORM groups=%d calls=%d first=%d\n", stormGroups, stormCalls, stormFirst)
 }
